@@ -38,6 +38,10 @@ type H struct {
 	// start, so neither this handler (if synchronous) nor any synchronous
 	// handler after it is started for that publish.
 	FilterCancels bool `json:"filter_cancels,omitempty"`
+	// Panics: the handler panics when it is done.  The bus contains the
+	// panic; cancellation, context propagation and the hooks of the publish
+	// are what they are without it.
+	Panics bool `json:"panics,omitempty"`
 }
 
 type Pub struct {
@@ -266,6 +270,9 @@ func Run(c *Case) *vkit.Outcome {
 			mu.Unlock()
 		}
 		add(rec{"hend", id, hi})
+		if h.Panics {
+			panic(fmt.Sprintf("handler %d fails on event %d", hi, id))
+		}
 	}
 	for hi, h := range c.Handlers {
 		hi := hi
